@@ -20,7 +20,7 @@ Reading the log (definitions in `FunProofs/QueueIter.lean`):
 The liveness half (the iterator does not stay blocked while an unseen item is present, returns on
 Close/cancel) is C20Live / C07. -/
 namespace FunModel.C20
-open FunModel.Conc FunModel.Queue
+open FunModel.Conc FunModel.ConcSubj FunModel.Queue
 
 /-- `iter_complete_in_order`: in any run in which no `Remove`/`Wait`/`Receive` ever returns an item, the
     sequence of values returned by the successive `next k` calls is a prefix of the sequence of all items
